@@ -157,6 +157,39 @@ def not_forward_shape():
                   decl.replace("\n", " "), exercises=["impl/src/deref.rs::expand", "impl/src/deref_mut.rs::expand", "impl/src/utils.rs::MetaInfo::into_full"])]
 
 
+def reference_field_shape():
+    """Without `forward`, a selected field that is itself a reference is handed out as it is: `Target = &T` and `&*s` is the field's own
+    storage, not the pointee (seed C14-shared-ref-field-deref-acts-like-forward); `&mut` fields likewise for DerefMut."""
+    decl = ("#[derive(derive_more::Deref)]\npub struct R<'a>(pub &'a Inner);\n\n"
+            "#[derive(derive_more::Deref)]\npub struct RN<'a> { #[deref] pub r: &'a Side, pub other: Inner }\n\n"
+            "#[derive(derive_more::Deref, derive_more::DerefMut)]\npub struct RM<'a>(pub &'a mut Inner);")
+    src = """    #[kani::proof]
+    fn reference_field_is_handed_out_itself() {
+        let mut inner = any_inner();
+        let side = any_side();
+        fn target_is<T: Deref<Target = U>, U: ?Sized>(_: &T) {}
+        {
+            let s = R(&inner);
+            target_is::<R<'_>, &Inner>(&s);
+            assert!(ptr::eq::<&Inner>(&*s, &s.0), "Deref of a reference field is the field's own storage, not the pointee");
+            let n = RN { r: &side, other: inner };
+            target_is::<RN<'_>, &Side>(&n);
+            assert!(ptr::eq::<&Side>(&*n, &n.r), "named, marked reference field: the field itself");
+        }
+        let mut m = RM(&mut inner);
+        target_is::<RM<'_>, &mut Inner>(&m);
+        let want = &m.0 as *const &mut Inner as usize;
+        assert!(&*m as *const &mut Inner as usize == want);
+        { let x: &mut &mut Inner = &mut *m; assert!(x as *mut &mut Inner as usize == want); }
+        kani::cover!(true, "reach end");
+    }
+"""
+    return [Shape("c14_deref_reference_field", module(decl, src),
+                  [Harness("reference_field_is_handed_out_itself", "all pointee contents symbolic", covers=1,
+                           asserts="no forward, field of type &T / &mut T: Target is the reference type and &*s / &mut *s is the field's own storage")],
+                  decl.replace("\n", " "), exercises=["impl/src/deref.rs::expand", "impl/src/deref_mut.rs::expand"])]
+
+
 def index_shapes():
     out = []
     for tag, body, ctor, f, others in layouts("index"):
@@ -345,7 +378,7 @@ def as_ref_shapes():
 
 
 def shapes(tier):
-    out = deref_shapes() + not_forward_shape() + index_shapes() + into_iter_shapes() + as_ref_shapes()
+    out = deref_shapes() + not_forward_shape() + reference_field_shape() + index_shapes() + into_iter_shapes() + as_ref_shapes()
     # the whole grid costs ~15 s: quick and thorough run all of it
     return out
 
